@@ -18,11 +18,12 @@ import HL.Model.ParserNum
     advance skipToNextLine error errorAt -> advance skipToNextLine error errorAt
     isValidCommodityText            -> isValidCommodityText
 
-  Loops are structural recursions on a fuel argument.  Every loop function is called with the
-  fuel of the enclosing top-level iteration; `HL.Lemmas.Parser` proves that whenever the fuel
-  is at least `PState.measure` (number of tokens not yet consumed) no loop ever reaches its
-  `0` case with work left, so the result does not depend on the fuel (`parse_fuel_suffices`).
-  The `0` cases return the current state unchanged.
+  Loops are structural recursions on a fuel argument (`…F`); the wrapper of each loop supplies
+  `fuelOf st = rem st.src + 1`, where `rem` is the token source's own bound on the number of
+  tokens it can still deliver (bytes left for the lexer, list length for a token list).
+  `HL.Lemmas.Parser` proves for every source whose `rem` strictly decreases on every non-EOF
+  token that no loop reaches its `0` case with work left: the result is the same for every
+  larger fuel (`…_fuel_suffices`, `parse_total`).  The `0` cases return the state unchanged.
 
   Go maps (`Subdirs`) are association lists with unique keys; insertion overwrites.
   `*T` results that may be nil are `Option T`.
@@ -33,6 +34,8 @@ open HL HL.Ast HL.PStr
 /-- The lexer as the parser sees it: `Next()`. -/
 structure TokSrc (σ : Type) where
   next : σ → Token × σ
+  /-- an upper bound on the number of non-EOF tokens still to come (used only as loop fuel) -/
+  rem : σ → Nat
 
 /-- `unicode.IsLetter`, `unicode.IsDigit` on code points. -/
 structure Classes where
@@ -59,6 +62,7 @@ def listSrc : TokSrc (List Token) where
   next
     | [] => (eofToken, [])
     | t :: r => (t, r)
+  rem := List.length
 
 section
 variable {σ : Type} (E : Env σ)
@@ -76,6 +80,9 @@ def errorAt (st : PState σ) (pos : Pos) (msg : Bytes) : PState σ :=
 /-- `p.error(fmt, args...)`. -/
 def error (st : PState σ) (msg : Bytes) : PState σ := errorAt st st.current.pos msg
 
+/-- Fuel handed to every loop that starts in state `st`. -/
+def fuelOf (st : PState σ) : Nat := E.src.rem st.src + 1
+
 def isLineEnd (t : Token) : Bool := t.ty = .newline || t.ty = .eof
 
 /-- The `for` loop of `skipToNextLine`. -/
@@ -83,8 +90,8 @@ def skipLoopF : Nat → PState σ → PState σ
   | 0, st => st
   | n+1, st => if isLineEnd st.current then st else skipLoopF n (advance E st)
 
-def skipToNextLine (fuel : Nat) (st : PState σ) : PState σ :=
-  let st := skipLoopF E fuel st
+def skipToNextLine (st : PState σ) : PState σ :=
+  let st := skipLoopF E (fuelOf E st) st
   if st.current.ty = .newline then advance E st else st
 
 def toRange (a b : Pos) : Rng := ⟨a, b⟩
@@ -262,7 +269,7 @@ def parseBalanceAssertion (st : PState σ) : Option Assertion × PState σ :=
 /-! ### postings and transactions -/
 
 /-- `parsePosting`. -/
-def parsePosting (fuel : Nat) (st : PState σ) : Option Posting × PState σ :=
+def parsePosting (st : PState σ) : Option Posting × PState σ :=
   if st.current.ty ≠ .indent then (none, st) else
   let st := advance E st
   if st.current.ty = .comment then (none, (parseComment E st).2) else
@@ -274,7 +281,7 @@ def parsePosting (fuel : Nat) (st : PState σ) : Option Posting × PState σ :=
     if st.current.ty = .lbracket then (.balanced, some .rbracket, advance E st)
     else if st.current.ty = .lparen then (.unbalanced, some .rparen, advance E st)
     else (.none, none, st)
-  if st.current.ty ≠ .account then (none, skipToNextLine E fuel (error st mExpectedAccount)) else
+  if st.current.ty ≠ .account then (none, skipToNextLine E (error st mExpectedAccount)) else
   let account : Account := ⟨st.current.val, toRange st.current.pos st.current.stop⟩
   let st := advance E st
   let st := if closing = some st.current.ty then advance E st else st
@@ -293,20 +300,20 @@ def parsePosting (fuel : Nat) (st : PState σ) : Option Posting × PState σ :=
   (some ⟨status, account, amount, assertion, cost, comment, tags, virt, toRange start st.current.pos⟩, st)
 
 /-- The `for p.current.Type == TokenIndent` loop of `parseTransaction`. -/
-def postingsF (fuel : Nat) : Nat → PState σ → List Posting × PState σ
+def postingsF : Nat → PState σ → List Posting × PState σ
   | 0, st => ([], st)
   | n+1, st =>
     if st.current.ty ≠ .indent then ([], st) else
-    let (p, st) := parsePosting E fuel st
+    let (p, st) := parsePosting E st
     let st := if st.current.ty = .newline then advance E st else st
-    let (ps, st) := postingsF fuel n st
+    let (ps, st) := postingsF n st
     (match p with | some p => p :: ps | none => ps, st)
 
 /-- `parseTransaction`. -/
-def parseTransaction (fuel : Nat) (st : PState σ) : Option Transaction × PState σ :=
+def parseTransaction (st : PState σ) : Option Transaction × PState σ :=
   let start := st.current.pos
   match parseDate E st with
-  | (none, st) => (none, skipToNextLine E fuel st)
+  | (none, st) => (none, skipToNextLine E st)
   | (some date, st) =>
     let (date2, st) : Option Date × PState σ :=
       if st.current.ty = .equals then parseDate E (advance E st) else (none, st)
@@ -332,7 +339,7 @@ def parseTransaction (fuel : Nat) (st : PState σ) : Option Transaction × PStat
         ([c], st)
       else ([], st)
     let st := if st.current.ty = .newline then advance E st else st
-    let (postings, st) := postingsF E fuel fuel st
+    let (postings, st) := postingsF E (fuelOf E st) st
     (some ⟨date, date2, status, code, desc, payee, note, postings, [], comments,
            toRange start st.current.pos⟩, st)
 
@@ -356,31 +363,31 @@ def subValueF : Nat → PState σ → Bytes → Bytes × PState σ
     subValueF n (advance E st) acc
 
 /-- `parseSubdirectives`. -/
-def parseSubdirectivesF (fuel : Nat) : Nat → PState σ → Subdirs → Subdirs × PState σ
+def parseSubdirectivesF : Nat → PState σ → Subdirs → Subdirs × PState σ
   | 0, st, m => (m, st)
   | n+1, st, m =>
     if st.current.ty ≠ .newline then (m, st) else
     let st := advance E st
     if st.current.ty ≠ .indent then (m, st) else
     let st := advance E st
-    if st.current.ty = .comment then parseSubdirectivesF fuel n (advance E st) m else
-    if st.current.ty = .newline ∨ st.current.ty = .eof then parseSubdirectivesF fuel n st m else
+    if st.current.ty = .comment then parseSubdirectivesF n (advance E st) m else
+    if st.current.ty = .newline ∨ st.current.ty = .eof then parseSubdirectivesF n st m else
     if st.current.ty = .text then
       let line := st.current.val
       let st := advance E st
       let m := match indexOf line [0x20] with
         | some (i+1) => subInsert m (line.take (i+1)) (trimSpace (line.drop (i+2)))
         | _ => subInsert m line []
-      parseSubdirectivesF fuel n st m
+      parseSubdirectivesF n st m
     else if st.current.ty = .directive then
       let name := st.current.val
       let st := advance E st
-      let (value, st) := subValueF E fuel st []
-      parseSubdirectivesF fuel n st (subInsert m name (trimSpace value))
-    else parseSubdirectivesF fuel n (skipToNextLine E fuel st) m
+      let (value, st) := subValueF E (fuelOf E st) st []
+      parseSubdirectivesF n st (subInsert m name (trimSpace value))
+    else parseSubdirectivesF n (skipToNextLine E st) m
 
-def parseSubdirectives (fuel : Nat) (st : PState σ) : Subdirs × PState σ :=
-  parseSubdirectivesF E fuel fuel st []
+def parseSubdirectives (st : PState σ) : Subdirs × PState σ :=
+  parseSubdirectivesF E (fuelOf E st) st []
 
 /-- `for p.current.Type != TokenNewline && p.current.Type != TokenEOF [&& != TokenComment] { advance }` -/
 def skipUntilF (stopAtComment : Bool) : Nat → PState σ → PState σ
@@ -390,9 +397,9 @@ def skipUntilF (stopAtComment : Bool) : Nat → PState σ → PState σ
     else skipUntilF stopAtComment n (advance E st)
 
 /-- `parseAccountDirective`. -/
-def parseAccountDirective (fuel : Nat) (startPos : Pos) (st : PState σ) : Option Directive × PState σ :=
+def parseAccountDirective (startPos : Pos) (st : PState σ) : Option Directive × PState σ :=
   if st.current.ty ≠ .account ∧ st.current.ty ≠ .text then
-    (none, skipToNextLine E fuel (error st mExpectedAccount)) else
+    (none, skipToNextLine E (error st mExpectedAccount)) else
   let name := st.current.val
   let accountPos := st.current.pos
   let st := advance E st
@@ -402,12 +409,12 @@ def parseAccountDirective (fuel : Nat) (startPos : Pos) (st : PState σ) : Optio
     if st.current.ty = .comment then
       (st.current.val, parseTags st.current.val st.current.pos, advance E st)
     else ([], [], st)
-  let st := skipUntilF E false fuel st
-  let (subs, st) := parseSubdirectives E fuel st
+  let st := skipUntilF E false (fuelOf E st) st
+  let (subs, st) := parseSubdirectives E st
   (some (.account ⟨name, toRange accountPos Pos.zero⟩ tags comment subs (toRange startPos st.current.pos)), st)
 
 /-- `parseCommodityDirective`. -/
-def parseCommodityDirective (fuel : Nat) (startPos : Pos) (st : PState σ) : Option Directive × PState σ :=
+def parseCommodityDirective (startPos : Pos) (st : PState σ) : Option Directive × PState σ :=
   let (com, format, st) : Commodity × Bytes × PState σ :=
     if st.current.ty = .commodity then
       let symbol := st.current.val
@@ -423,9 +430,9 @@ def parseCommodityDirective (fuel : Nat) (startPos : Pos) (st : PState σ) : Opt
     else if st.current.ty = .text then
       (⟨st.current.val, .left, toRange st.current.pos Pos.zero⟩, [], advance E st)
     else (emptyCommodity, [], st)
-  let st := skipUntilF E true fuel st
+  let st := skipUntilF E true (fuelOf E st) st
   let st := if st.current.ty = .comment then advance E st else st
-  let (subs, st) := parseSubdirectives E fuel st
+  let (subs, st) := parseSubdirectives E st
   let format := match subLookup subs (bs "format") with | some f => f | none => format
   let note := match subLookup subs (bs "note") with | some f => f | none => []
   (some (.commodity com format note subs (toRange startPos st.current.pos)), st)
@@ -438,28 +445,28 @@ def includePathF : Nat → PState σ → Bytes → Bytes × PState σ
     else includePathF n (advance E st) (acc ++ st.current.val)
 
 /-- `parseIncludeDirective`. -/
-def parseIncludeDirective (fuel : Nat) (startPos : Pos) (st : PState σ) : Option Include × PState σ :=
-  let (path, st) := includePathF E fuel st []
+def parseIncludeDirective (startPos : Pos) (st : PState σ) : Option Include × PState σ :=
+  let (path, st) := includePathF E (fuelOf E st) st []
   let pathStr := trimSpace path
-  if pathStr = [] then (none, skipToNextLine E fuel (error st mExpectedFilePath)) else
-  (some ⟨pathStr, toRange startPos st.current.pos⟩, skipToNextLine E fuel st)
+  if pathStr = [] then (none, skipToNextLine E (error st mExpectedFilePath)) else
+  (some ⟨pathStr, toRange startPos st.current.pos⟩, skipToNextLine E st)
 
 /-- `parsePriceDirective`. -/
-def parsePriceDirective (fuel : Nat) (startPos : Pos) (st : PState σ) : Option Directive × PState σ :=
+def parsePriceDirective (startPos : Pos) (st : PState σ) : Option Directive × PState σ :=
   match parseDate E st with
-  | (none, st) => (none, skipToNextLine E fuel st)
+  | (none, st) => (none, skipToNextLine E st)
   | (some date, st) =>
     if st.current.ty = .commodity ∨ st.current.ty = .text then
       let com : Commodity := ⟨st.current.val, .left, toRange st.current.pos Pos.zero⟩
       let st := advance E st
       match parseAmount E st with
-      | (none, st) => (none, skipToNextLine E fuel st)
+      | (none, st) => (none, skipToNextLine E st)
       | (some price, st) =>
-        (some (.price date com price (toRange startPos st.current.pos)), skipToNextLine E fuel st)
-    else (none, skipToNextLine E fuel (error st mExpectedCommodity))
+        (some (.price date com price (toRange startPos st.current.pos)), skipToNextLine E st)
+    else (none, skipToNextLine E (error st mExpectedCommodity))
 
 /-- `parseDefaultCommodityDirective`. -/
-def parseDefaultCommodityDirective (fuel : Nat) (startPos : Pos) (st : PState σ) : Option Directive × PState σ :=
+def parseDefaultCommodityDirective (startPos : Pos) (st : PState σ) : Option Directive × PState σ :=
   let (symbol, format, st) : Bytes × Bytes × PState σ :=
     if st.current.ty = .commodity then
       let symbol := st.current.val
@@ -472,18 +479,18 @@ def parseDefaultCommodityDirective (fuel : Nat) (startPos : Pos) (st : PState σ
         (st.current.val, number ++ [0x20] ++ st.current.val, advance E st)
       else ([], [], st)
     else ([], [], st)
-  (some (.defaultCommodity symbol format (toRange startPos st.current.pos)), skipToNextLine E fuel st)
+  (some (.defaultCommodity symbol format (toRange startPos st.current.pos)), skipToNextLine E st)
 
 /-- `parseYearDirective`. -/
-def parseYearDirective (fuel : Nat) (startPos : Pos) (st : PState σ) : Option Directive × PState σ :=
-  if st.current.ty ≠ .number then (none, skipToNextLine E fuel (error st mExpectedYear)) else
+def parseYearDirective (startPos : Pos) (st : PState σ) : Option Directive × PState σ :=
+  if st.current.ty ≠ .number then (none, skipToNextLine E (error st mExpectedYear)) else
   match atoi st.current.val with
-  | none => (none, skipToNextLine E fuel (error st (mInvalidYear ++ st.current.val)))
+  | none => (none, skipToNextLine E (error st (mInvalidYear ++ st.current.val)))
   | some year =>
-    if year < 1 ∨ year > 9999 then (none, skipToNextLine E fuel (error st (mInvalidYear ++ st.current.val))) else
+    if year < 1 ∨ year > 9999 then (none, skipToNextLine E (error st (mInvalidYear ++ st.current.val))) else
     let st := { st with defaultYear := year }
     let st := advance E st
-    (some (.year year (toRange startPos st.current.pos)), skipToNextLine E fuel st)
+    (some (.year year (toRange startPos st.current.pos)), skipToNextLine E st)
 
 /-- What `parseDirective` hands back to `parseJournal`: nil, an `ast.Include`, or another directive. -/
 inductive DirResult where
@@ -496,25 +503,25 @@ def DirResult.ofDir : Option Directive → DirResult
   | Option.none => .none
 
 /-- `parseDirective`. -/
-def parseDirective (fuel : Nat) (st : PState σ) : DirResult × PState σ :=
+def parseDirective (st : PState σ) : DirResult × PState σ :=
   let directive := st.current.val
   let pos := st.current.pos
   let st := advance E st
   if directive = bs "account" then
-    let r := parseAccountDirective E fuel pos st; (.ofDir r.1, r.2)
+    let r := parseAccountDirective E pos st; (.ofDir r.1, r.2)
   else if directive = bs "commodity" then
-    let r := parseCommodityDirective E fuel pos st; (.ofDir r.1, r.2)
+    let r := parseCommodityDirective E pos st; (.ofDir r.1, r.2)
   else if directive = bs "include" then
-    match parseIncludeDirective E fuel pos st with
+    match parseIncludeDirective E pos st with
     | (some i, st) => (.incl i, st)
     | (Option.none, st) => (.none, st)
   else if directive = bs "P" then
-    let r := parsePriceDirective E fuel pos st; (.ofDir r.1, r.2)
+    let r := parsePriceDirective E pos st; (.ofDir r.1, r.2)
   else if directive = bs "Y" ∨ directive = bs "year" then
-    let r := parseYearDirective E fuel pos st; (.ofDir r.1, r.2)
+    let r := parseYearDirective E pos st; (.ofDir r.1, r.2)
   else if directive = bs "D" then
-    let r := parseDefaultCommodityDirective E fuel pos st; (.ofDir r.1, r.2)
-  else (.none, skipToNextLine E fuel st)
+    let r := parseDefaultCommodityDirective E pos st; (.ofDir r.1, r.2)
+  else (.none, skipToNextLine E st)
 
 /-! ### the journal loop -/
 
@@ -527,21 +534,21 @@ inductive Item where
   | dir (d : Directive)
 
 /-- One iteration of the `for p.current.Type != TokenEOF` loop body (the `switch`). -/
-def journalStep (fuel : Nat) (st : PState σ) : Item × PState σ :=
+def journalStep (st : PState σ) : Item × PState σ :=
   if st.current.ty = .newline then (.nothing, advance E st)
   else if st.current.ty = .comment then
     let r := parseComment E st; (.comment r.1, r.2)
   else if st.current.ty = .date then
-    match parseTransaction E fuel st with
+    match parseTransaction E st with
     | (some t, st) => (.tx t, st)
     | (none, st) => (.nothing, st)
   else if st.current.ty = .directive then
-    match parseDirective E fuel st with
+    match parseDirective E st with
     | (.none, st) => (.nothing, st)
     | (.incl i, st) => (.incl i, st)
     | (.dir d, st) => (.dir d, st)
   else
-    (.nothing, skipToNextLine E fuel (error st (mUnexpectedToken ++ bs st.current.ty.name)))
+    (.nothing, skipToNextLine E (error st (mUnexpectedToken ++ bs st.current.ty.name)))
 
 def jempty : Journal := ⟨[], [], [], []⟩
 
@@ -557,20 +564,22 @@ def parseJournalF : Nat → PState σ → Journal × PState σ
   | 0, st => (jempty, st)
   | n+1, st =>
     if st.current.ty = .eof then (jempty, st) else
-    let (item, st) := journalStep E (n+1) st
+    let (item, st) := journalStep E st
     let (j, st) := parseJournalF n st
     (jpush j item, st)
 
 /-- `Parse`: `p.advance()` then `parseJournal`; returns the journal and `p.errors`. -/
-def parseWith (fuel : Nat) (s : σ) : Journal × List ParseError :=
+def parseJournal (st : PState σ) : Journal × PState σ := parseJournalF E (fuelOf E st) st
+
+def parseWith (s : σ) : Journal × List ParseError :=
   let st : PState σ := advance E ⟨s, eofToken, [], 0⟩
-  let (j, st) := parseJournalF E fuel st
+  let (j, st) := parseJournal E st
   (j, st.errors)
 
 end
 
-/-- `Parse` on a complete token stream (fuel: one per token, plus one). -/
+/-- `Parse` on a complete token stream. -/
 def parseTokens (num : NumDeps) (cls : Classes) (toks : List Token) : Journal × List ParseError :=
-  parseWith ⟨listSrc, num, cls⟩ (toks.length + 1) toks
+  parseWith ⟨listSrc, num, cls⟩ toks
 
 end HL.Parser
